@@ -115,7 +115,7 @@ PROPS = {
              "field names must be those of the template in force. Non-trivial = a data set after >= 2 template-affecting ops on related keys.",
              COMMON_ASSUME + ["a template set cut inside its 4-byte (id, count) header is not generated (gray zone)"],
              "runtime monitor: reference template-table model + table snapshot comparison after every message; bounded-exhaustive + random histories"),
-    "C17": P(False, (8, 16), 16, (1200, 5400), 20000, 10000, "exploration",
+    "C17": P(True, (8, 16), 16, (1200, 5400), 20000, 10000, "exploration",
              "one evaluation = one (template mixing known and unknown elements, 1..4 records, decoding mode): wire bytes from refipfix, "
              "presented to ONE long-lived collecting process per mode (unknown ids drawn half of the time from a small pool, so the same unknown "
              "element recurs with different lengths under different template ids), plus a twin without the unknown fields. Strict must reject template and data; "
